@@ -2,16 +2,15 @@ import IceProofs.AgentC06Read
 /-!
 # C06 — address literal forms (`Cand.form`)
 
-The Go code compares remote candidates in two ways: `findRemoteCandidate` / the cache keys canonicalise the
-address (an IPv4-mapped `::ffff:10.0.0.3` and `10.0.0.3` are ONE address), while `transportAddressEqual` — hence
-`Equal`, the dedup loop of `addRemoteCandidate`, `findPair` and `removeRedundantPrflxFromSet` — compares the
-`Address()` STRINGS (two literals of one address are different).  Lemmas here:
+A remote candidate may be signalled through a non-canonical literal of its address (`::ffff:10.0.0.3`).  Every
+comparison of the Go code canonicalises (`findRemoteCandidate`, the cache keys, and — since the fix of FORMS-1/2 —
+`transportAddressEqual`), so `form` is a tag that no lemma needs.  Lemmas here:
 
 * an inbound STUN message whose source is the canonical address of ANY listed remote candidate of the receiving
   candidate's network type — whatever literal that candidate was signalled with — never changes the remote
   candidate set (no duplicate peer-reflexive candidate);
-* a new signalled candidate supersedes exactly the peer-reflexive candidates with its transport address AND its
-  literal form; a peer-reflexive candidate left at its address has another form.
+* a new signalled candidate supersedes EVERY peer-reflexive candidate with its network type and canonical address,
+  whatever the literals.
 -/
 namespace IceProofs.AgentC06
 open IceModel.AgentCore
@@ -84,13 +83,13 @@ theorem step_inbound_known_rcs {a : Agent} (hi : Inv a) (now la src : Nat) (m : 
 
 /-! ## supersession -/
 
-/-- after a NEW signalled candidate `c` was added, a peer-reflexive candidate still listed at `c`'s canonical
-transport address was created from another literal of that address -/
-theorem addRemoteCandidate_prflx_left {a : Agent} (h : Inv a) (c : Cand) (hc : a.closed = false)
+/-- after a NEW signalled candidate `c` was added, no peer-reflexive candidate is listed at `c`'s network type and
+canonical address (whatever the literals) -/
+theorem addRemoteCandidate_prflx_gone {a : Agent} (h : Inv a) (c : Cand) (hc : a.closed = false)
     (hb : a.cfg.blockedIPs.contains (ipOf c.addr) = false)
     (hf : (a.remotes.filter (·.net == c.net)).find? (·.equal c) = none) (hty : c.ty ≠ 3) :
-    ∀ e ∈ rcsOf (a.addRemoteCandidate c).1, e.ty = 3 → e.net = c.net → e.addr = c.addr → e.form ≠ c.form := by
-  intro e he ety enet eaddr eform
+    ∀ e ∈ rcsOf (a.addRemoteCandidate c).1, ¬ (e.ty = 3 ∧ e.net = c.net ∧ e.addr = c.addr) := by
+  intro e he ⟨ety, enet, eaddr⟩
   rw [arc_eq a c hb hf] at he
   obtain ⟨h1, _, _⟩ := arcA4_spec h c hc hb hf
   have he' : e ∈ rcsOf (arcA3 a c) := by
@@ -105,8 +104,8 @@ theorem addRemoteCandidate_prflx_left {a : Agent} (h : Inv a) (c : Cand) (hc : a
       rw [if_neg (by simpa [arcC0] using hty)]
       rw [List.mem_filter]
       refine ⟨he0, ?_⟩
-      simp only [core_ty, core_net, core_addr, core_form] at ety enet eaddr eform
-      simp [arcC0, Cand.taEqual, ety, enet, eaddr, eform]
+      simp only [core_ty, core_net, core_addr] at ety enet eaddr
+      simp [arcC0, Cand.taEqual, ety, enet, eaddr]
     have : (arcS a c).contains (core e0).uid = true := by
       rw [List.contains_iff_mem]
       exact List.mem_map.2 ⟨e0, hrep, rfl⟩
@@ -116,13 +115,13 @@ theorem addRemoteCandidate_prflx_left {a : Agent} (h : Inv a) (c : Cand) (hc : a
     subst hm
     exact hty (by simpa [arcC0] using ety)
 
-/-- the `addRemote` event with a NEW signalled candidate: every peer-reflexive candidate left at its canonical
-transport address has another literal form -/
-theorem step_addRemote_prflx_left {a : Agent} (h : Inv a) (now : Nat) (c : Cand) (hc : a.closed = false)
+/-- the `addRemote` event with a NEW signalled candidate: no peer-reflexive candidate is left at its canonical
+transport address -/
+theorem step_addRemote_prflx_gone {a : Agent} (h : Inv a) (now : Nat) (c : Cand) (hc : a.closed = false)
     (hb : a.cfg.blockedIPs.contains (ipOf c.addr) = false)
     (hf : (a.remotes.filter (·.net == c.net)).find? (·.equal c) = none) (hty : c.ty ≠ 3) :
-    ∀ e ∈ rcsOf (step a (.addRemote now c)).1, e.ty = 3 → e.net = c.net → e.addr = c.addr → e.form ≠ c.form := by
-  have h0 := addRemoteCandidate_prflx_left h c hc hb hf hty
+    ∀ e ∈ rcsOf (step a (.addRemote now c)).1, ¬ (e.ty = 3 ∧ e.net = c.net ∧ e.addr = c.addr) := by
+  have h0 := addRemoteCandidate_prflx_gone h c hc hb hf hty
   simp only [step, hc]
   generalize a.addRemoteCandidate c = x at h0
   obtain ⟨b, o, rc⟩ := x
